@@ -1239,10 +1239,13 @@ func (cs *c01Case) cfg() string {
 // the same function declares with `var` (parse/v2 binds the body's uses of that name to the outer variable).
 var c01ReYieldUndef = regexp.MustCompile(`\byield\s+\(*undefined\b`)
 
+// `undefined` as a parameter (last: `undefined){` / `undefined)=>`; not last: `(undefined,…){`) or as a declared variable
+var c01ReBindUndef = regexp.MustCompile(`\bundefined\s*\)\s*(\{|=>)|[(,]\s*undefined\s*[,=][^{};]*\)\s*(\{|=>)|\b(var|let|const)\s[^;]*\bundefined\s*[=,;]`)
+
 func c01ClassifyExtra(src string) []string {
 	var out []string
 	// S17: `yield undefined` where `undefined` may be a captured local of an enclosing function
-	if c01ReYieldUndef.MatchString(src) && regexp.MustCompile(`\bfunction\b[^(]*\([^)]*\bundefined\b|\(([^()]*,)?\s*undefined\s*(,[^()]*)?\)\s*=>|\b(var|let|const)\s[^;]*\bundefined\s*[=,;]`).MatchString(src) {
+	if c01ReYieldUndef.MatchString(src) && c01ReBindUndef.MatchString(src) {
 		out = append(out, "S17-yield-shadow-undefined")
 	}
 	isID := func(c byte) bool { return c == '_' || c == '$' || c >= '0' && c <= '9' || c >= 'a' && c <= 'z' || c >= 'A' && c <= 'Z' }
